@@ -1,13 +1,240 @@
-(* Dispatch table: model function for each (fn, copy). Grown together with harness/src/main.rs. *)
+(* Dispatch table: model function for each (fn, copy). Mirrors harness/src/dispatch.rs. *)
 open Model
 open Driver
 
-let lift1 f = function Ok v -> Ok [f v] | Panic -> Panic | OutOfFuel -> OutOfFuel
+let zi = z_of_int
+
+let params_of = function
+  | "lvl2" | "dilithium2" -> p_lvl2
+  | "lvl3" | "dilithium3" -> p_lvl3
+  | "lvl5" | "dilithium5" -> p_lvl5
+  | "ml_dsa_44" -> p_ml44
+  | "ml_dsa_65" -> p_ml65
+  | "ml_dsa_87" -> p_ml87
+  | _ -> raise Unknown
+
+let g88_of = function
+  | "lvl2" | "ml_dsa_44" -> true
+  | "lvl3" | "lvl5" | "ml_dsa_65" | "ml_dsa_87" -> false
+  | _ -> raise Unknown
+
+let rec chunks n l =
+  if l = [] then []
+  else begin
+    let rec take k l acc = if k = 0 then (List.rev acc, l) else
+        match l with [] -> (List.rev acc, []) | x :: r -> take (k - 1) r (x :: acc) in
+    let (a, b) = take n l [] in
+    a :: chunks n b
+  end
+
+let vec l = chunks 256 l
+let mat l_ l = List.map (chunks 256) (chunks (256 * l_) l)
+let flat v = List.concat v
+let flatm m = List.concat (List.map List.concat m)
+
+let ( >>= ) m f = match m with Ok v -> f v | Panic -> Panic | OutOfFuel -> OutOfFuel
+let ret l = Ok l
+let oi z = OInt z
+let ol l = OInts l
+let ob l = OBytes l
+let obool b = OInt (if b then zi 1 else zi 0)
+let zeros n = List.init n (fun _ -> Z0)
+let zbool z = (z <> Z0)
+
+(* SHAKE history interpreter: ops are (opcode, operands) as consecutive args *)
+let rec shake_hist (rate128 : bool) st args acc =
+  match args with
+  | [] -> Ok (List.rev acc)
+  | AInt op :: rest ->
+    (match int_of_z op, rest with
+     | 0, ABytes b :: r ->
+       (if rate128 then shake128_absorb st b (zlen b) else shake256_absorb st b (zlen b)) >>= fun st' ->
+       shake_hist rate128 st' r acc
+     | 1, r ->
+       (if rate128 then shake128_finalize st else shake256_finalize st) >>= fun st' -> shake_hist rate128 st' r acc
+     | 2, AInt n :: r ->
+       if rate128 then raise Unknown else
+         shake256_squeeze (zeros (int_of_z n)) n st >>= fun (o, st') -> shake_hist rate128 st' r (OBytes o :: acc)
+     | 3, AInt n :: r ->
+       let rate = if rate128 then 168 else 136 in
+       let buf = zeros (int_of_z n * rate) in
+       (if rate128 then shake128_squeezeblocks buf n st else shake256_squeezeblocks buf n st) >>= fun (o, st') ->
+       shake_hist rate128 st' r (OBytes o :: acc)
+     | 4, ABytes b :: r ->
+       if rate128 then raise Unknown else
+         shake256_absorb_once b (zlen b) >>= fun st' -> shake_hist rate128 st' r acc
+     | 5, r -> shake_hist rate128 kinit r acc
+     | 6, ABytes seed :: AInt nonce :: r ->
+       (if rate128 then shake128_stream_init seed nonce else shake256_stream_init seed nonce) >>= fun st' ->
+       shake_hist rate128 st' r acc
+     | _ -> raise Unknown)
+  | _ -> raise Unknown
+
+let octx = function ABytes b -> Some b | AInt _ -> None | _ -> failwith "ctx"
 
 let dispatch (fn : string) (copy : string) (a : arg list) : out list res =
-  ignore copy;
   match fn, a with
-  | "montgomery_reduce", [x] -> lift1 (fun v -> OInt v) (montgomery_reduce (geti x))
-  | "reduce32", [x] -> lift1 (fun v -> OInt v) (reduce32 (geti x))
-  | "caddq", [x] -> lift1 (fun v -> OInt v) (caddq (geti x))
+  (* reduce.rs *)
+  | "montgomery_reduce", [x] -> montgomery_reduce (geti x) >>= fun v -> ret [oi v]
+  | "reduce32", [x] -> reduce32 (geti x) >>= fun v -> ret [oi v]
+  | "caddq", [x] -> caddq (geti x) >>= fun v -> ret [oi v]
+  (* rounding *)
+  | "power2round", [x] -> power2round (geti x) >>= fun (a0, a1) -> ret [oi a0; oi a1]
+  | "decompose", [x] -> decompose (g88_of copy) (geti x) >>= fun (a0, a1) -> ret [oi a0; oi a1]
+  | "make_hint", [x; y] -> make_hint (g88_of copy) (geti x) (geti y) >>= fun v -> ret [oi v]
+  | "use_hint", [x; y] -> use_hint (g88_of copy) (geti x) (geti y) >>= fun v -> ret [oi v]
+  (* ntt.rs / poly.rs *)
+  | ("ntt_ntt" | "poly_ntt"), [x] -> ntt (getl x) >>= fun r -> ret [ol r]
+  | ("ntt_invntt" | "poly_invntt"), [x] -> invntt_tomont (getl x) >>= fun r -> ret [ol r]
+  | "poly_reduce", [x] -> poly_reduce (getl x) >>= fun r -> ret [ol r]
+  | "poly_caddq", [x] -> poly_caddq (getl x) >>= fun r -> ret [ol r]
+  | ("poly_add" | "poly_add_ip"), [x; y] -> poly_add (getl x) (getl y) >>= fun r -> ret [ol r]
+  | ("poly_sub" | "poly_sub_ip"), [x; y] -> poly_sub (getl x) (getl y) >>= fun r -> ret [ol r]
+  | "poly_shiftl", [x] -> poly_shiftl (getl x) >>= fun r -> ret [ol r]
+  | "poly_pointwise", [x; y] -> poly_pointwise_montgomery (getl x) (getl y) >>= fun r -> ret [ol r]
+  | "poly_power2round", [x] -> poly_power2round (getl x) >>= fun (a1, a0) -> ret [ol a1; ol a0]
+  | "chknorm", [x; b] -> chknorm (getl x) (geti b) >>= fun r -> ret [oi r]
+  | "rej_uniform", [x; alen; buf; buflen] ->
+    rej_uniform (getl x) (geti alen) (getb buf) (geti buflen) >>= fun (a', c) -> ret [ol a'; oi c]
+  | "uniform", [seed; nonce] -> poly_uniform zpoly (getb seed) (geti nonce) >>= fun r -> ret [ol r]
+  | "uniform_tap", [tape] ->
+    uniform_from (tape_sq (zi 168)) sAMPLER_FUEL (getb tape) zpoly >>= fun r -> ret [ol r]
+  | "t1_pack", [r; x] -> t1_pack (getb r) (getl x) >>= fun o -> ret [ob o]
+  | "t1_unpack", [b] -> t1_unpack (getb b) >>= fun o -> ret [ol o]
+  | "t0_pack", [r; x] -> t0_pack (getb r) (getl x) >>= fun o -> ret [ob o]
+  | "t0_unpack", [b] -> t0_unpack (getb b) >>= fun o -> ret [ol o]
+  (* poly/<set>.rs *)
+  | "poly_decompose", [x] -> poly_decompose (g88_of copy) (getl x) >>= fun (a1, a0) -> ret [ol a1; ol a0]
+  | "poly_make_hint", [x; y] -> poly_make_hint (g88_of copy) (getl x) (getl y) >>= fun (h, s) -> ret [ol h; oi s]
+  | ("poly_use_hint" | "poly_use_hint_ip"), [x; y] -> poly_use_hint (g88_of copy) (getl x) (getl y) >>= fun r -> ret [ol r]
+  | "rej_eta", [x; alen; buf; buflen] ->
+    rej_eta (params_of copy).pETA (getl x) (geti alen) (getb buf) (geti buflen) >>= fun (a', c) -> ret [ol a'; oi c]
+  | "uniform_eta", [seed; nonce] ->
+    poly_uniform_eta (params_of copy).pETA zpoly (getb seed) (geti nonce) >>= fun r -> ret [ol r]
+  | "uniform_eta_tap", [tape] ->
+    uniform_eta_from (tape_sq (zi 136)) (params_of copy).pETA sAMPLER_FUEL (getb tape) zpoly >>= fun r -> ret [ol r]
+  | "uniform_gamma1", [seed; nonce] ->
+    poly_uniform_gamma1 (params_of copy).pGAMMA1 (getb seed) (geti nonce) >>= fun r -> ret [ol r]
+  | "challenge", [seed] ->
+    let p = params_of copy in poly_challenge p.pTAU p.pCT (getb seed) >>= fun r -> ret [ol r]
+  | "challenge_tap", [tape] ->
+    let p = params_of copy in
+    challenge_from (tape_sq (zi 136)) p.pTAU sAMPLER_FUEL (getb tape) >>= fun r -> ret [ol r]
+  | "eta_pack", [r; x] -> eta_pack (params_of copy).pETA (getb r) (getl x) >>= fun o -> ret [ob o]
+  | "eta_unpack", [b] -> eta_unpack (params_of copy).pETA (getb b) >>= fun o -> ret [ol o]
+  | "z_pack", [r; x] -> z_pack (params_of copy).pGAMMA1 (getb r) (getl x) >>= fun o -> ret [ob o]
+  | "z_unpack", [b] -> z_unpack (params_of copy).pGAMMA1 (getb b) >>= fun o -> ret [ol o]
+  | "w1_pack", [r; x] -> w1_pack (g88_of copy) (getb r) (getl x) >>= fun o -> ret [ob o]
+  (* polyvec/<lvl>.rs *)
+  | "matrix_expand", [rho] ->
+    let p = params_of copy in
+    matrix_expand p (zmat p.pK p.pL) (getb rho) >>= fun m -> ret [ol (flatm m)]
+  | "matrix_pointwise", [m; v] ->
+    let p = params_of copy in
+    matrix_pointwise_montgomery p (zvec p.pK) (mat (int_of_z p.pL) (getl m)) (vec (getl v)) >>= fun t -> ret [ol (flat t)]
+  | "l_pointwise_acc", [u; v] ->
+    l_pointwise_acc_montgomery (params_of copy) (vec (getl u)) (vec (getl v)) >>= fun w -> ret [ol w]
+  | "l_uniform_eta", [seed; nonce] ->
+    let p = params_of copy in l_uniform_eta p (zvec p.pL) (getb seed) (geti nonce) >>= fun v -> ret [ol (flat v)]
+  | "k_uniform_eta", [seed; nonce] ->
+    let p = params_of copy in k_uniform_eta p (zvec p.pK) (getb seed) (geti nonce) >>= fun v -> ret [ol (flat v)]
+  | "l_uniform_gamma1", [seed; nonce] ->
+    let p = params_of copy in l_uniform_gamma1 p (zvec p.pL) (getb seed) (geti nonce) >>= fun v -> ret [ol (flat v)]
+  | "l_reduce", [v] -> l_reduce (params_of copy) (vec (getl v)) >>= fun r -> ret [ol (flat r)]
+  | "k_reduce", [v] -> k_reduce (params_of copy) (vec (getl v)) >>= fun r -> ret [ol (flat r)]
+  | "k_caddq", [v] -> k_caddq (params_of copy) (vec (getl v)) >>= fun r -> ret [ol (flat r)]
+  | "l_ntt", [v] -> l_ntt (params_of copy) (vec (getl v)) >>= fun r -> ret [ol (flat r)]
+  | "k_ntt", [v] -> k_ntt (params_of copy) (vec (getl v)) >>= fun r -> ret [ol (flat r)]
+  | "l_invntt", [v] -> l_invntt_tomont (params_of copy) (vec (getl v)) >>= fun r -> ret [ol (flat r)]
+  | "k_invntt", [v] -> k_invntt_tomont (params_of copy) (vec (getl v)) >>= fun r -> ret [ol (flat r)]
+  | "k_shiftl", [v] -> k_shiftl (params_of copy) (vec (getl v)) >>= fun r -> ret [ol (flat r)]
+  | "l_add", [w; v] -> l_add (params_of copy) (vec (getl w)) (vec (getl v)) >>= fun r -> ret [ol (flat r)]
+  | "k_add", [w; v] -> k_add (params_of copy) (vec (getl w)) (vec (getl v)) >>= fun r -> ret [ol (flat r)]
+  | "k_sub", [w; v] -> k_sub (params_of copy) (vec (getl w)) (vec (getl v)) >>= fun r -> ret [ol (flat r)]
+  | "l_pointwise_poly", [x; v] ->
+    let p = params_of copy in
+    l_pointwise_poly_montgomery p (zvec p.pL) (getl x) (vec (getl v)) >>= fun r -> ret [ol (flat r)]
+  | "k_pointwise_poly", [x; v] ->
+    let p = params_of copy in
+    k_pointwise_poly_montgomery p (zvec p.pK) (getl x) (vec (getl v)) >>= fun r -> ret [ol (flat r)]
+  | "l_chknorm", [v; b] -> l_chknorm (params_of copy) (vec (getl v)) (geti b) >>= fun r -> ret [oi r]
+  | "k_chknorm", [v; b] -> k_chknorm (params_of copy) (vec (getl v)) (geti b) >>= fun r -> ret [oi r]
+  | "k_power2round", [v1; v0] ->
+    k_power2round (params_of copy) (vec (getl v1)) (vec (getl v0)) >>= fun (a, b) -> ret [ol (flat a); ol (flat b)]
+  | "k_decompose", [v1; v0] ->
+    k_decompose (params_of copy) (vec (getl v1)) (vec (getl v0)) >>= fun (a, b) -> ret [ol (flat a); ol (flat b)]
+  | "k_make_hint", [v0; v1] ->
+    let p = params_of copy in
+    k_make_hint p (zvec p.pK) (vec (getl v0)) (vec (getl v1)) >>= fun (h, s) -> ret [ol (flat h); oi s]
+  | "k_use_hint", [x; h] -> k_use_hint (params_of copy) (vec (getl x)) (vec (getl h)) >>= fun r -> ret [ol (flat r)]
+  | "k_pack_w1", [r; x] -> k_pack_w1 (params_of copy) (getb r) (vec (getl x)) >>= fun o -> ret [ob o]
+  (* packing/<set>.rs *)
+  | "pack_pk", [pk; rho; t1] -> pack_pk (params_of copy) (getb pk) (getb rho) (vec (getl t1)) >>= fun o -> ret [ob o]
+  | "unpack_pk", [pk] ->
+    let p = params_of copy in
+    unpack_pk p (zeros 32) (zvec p.pK) (getb pk) >>= fun (rho, t1) -> ret [ob rho; ol (flat t1)]
+  | "pack_sk", [sk; rho; tr; key; t0; s1; s2] ->
+    pack_sk (params_of copy) (getb sk) (getb rho) (getb tr) (getb key) (vec (getl t0)) (vec (getl s1)) (vec (getl s2))
+    >>= fun o -> ret [ob o]
+  | "unpack_sk", [sk] ->
+    let p = params_of copy in
+    unpack_sk p (zeros 32) (zeros (int_of_z p.pTR)) (zeros 32) (zvec p.pK) (zvec p.pL) (zvec p.pK) (getb sk)
+    >>= fun (((((rho, tr), key), t0), s1), s2) -> ret [ob rho; ob tr; ob key; ol (flat t0); ol (flat s1); ol (flat s2)]
+  | "pack_sig", [sg; c; z; h] ->
+    let c' = (match c with ABytes b -> Some b | _ -> None) in
+    pack_sig (params_of copy) (getb sg) c' (vec (getl z)) (vec (getl h)) >>= fun o -> ret [ob o]
+  | "unpack_sig", [sg; h0] ->
+    let p = params_of copy in
+    unpack_sig p (zeros (int_of_z p.pCT)) (zvec p.pL) (vec (getl h0)) (getb sg)
+    >>= fun (((c, z), h), ok) -> ret [ob c; ol (flat z); ol (flat h); obool ok]
+  (* sign/<set>.rs *)
+  | "keypair", [seed] ->
+    let p = params_of copy in
+    keypair p (zeros (int_of_z (pPK p))) (zeros (int_of_z (pSK p))) (Some (getb seed)) []
+    >>= fun ((pk, sk), _) -> ret [ob pk; ob sk]
+  | "keypair_rand", [tape] ->
+    let p = params_of copy in
+    keypair p (zeros (int_of_z (pPK p))) (zeros (int_of_z (pSK p))) None (getb tape)
+    >>= fun ((pk, sk), rest) -> ret [ob pk; ob sk; oi (zlen rest)]
+  | "signature", [sg; msg; sk; rand; tape] ->
+    signature (params_of copy) (getb sg) (getb msg) (getb sk) (zbool (geti rand)) (getb tape)
+    >>= fun (s, rest) -> ret [ob s; oi (zlen rest)]
+  | "signature_trace", [sg; msg; sk; rand; tape] ->
+    signature_trace (params_of copy) sIGN_FUEL (getb sg) (getb msg) (getb sk) (zbool (geti rand)) (getb tape)
+    >>= fun ((s, tr), rest) -> ret [ob s; ol tr]
+  | "verify", [sg; m; pk] -> verify (params_of copy) (getb sg) (getb m) (getb pk) >>= fun b -> ret [obool b]
+  (* containers and wrappers *)
+  | "sk_roundtrip", [b] -> sk_from_bytes (params_of copy) (getb b) >>= fun s -> ret [ob s]
+  | "pk_roundtrip", [b] -> pk_from_bytes (params_of copy) (getb b) >>= fun s -> ret [ob s]
+  | "kp_roundtrip", [b] ->
+    let p = params_of copy in
+    kp_from_bytes p (getb b) >>= fun (s, pk) -> kp_to_bytes p s pk >>= fun o -> ret [ob s; ob pk; ob o]
+  | "kp_generate", [seed] ->
+    let p = params_of copy in
+    kp_generate p (Some (getb seed)) [] >>= fun ((s, pk), _) -> kp_to_bytes p s pk >>= fun o -> ret [ob s; ob pk; ob o]
+  | "kp_generate_rand", [tape] ->
+    let p = params_of copy in
+    kp_generate p None (getb tape) >>= fun ((s, pk), rest) -> ret [ob s; ob pk; oi (zlen rest)]
+  | "api_sign", [sk; msg] -> dil_sign (params_of copy) (getb sk) (getb msg) >>= fun s -> ret [ob s]
+  | "api_verify", [pk; msg; sg] -> dil_verify (params_of copy) (getb pk) (getb msg) (getb sg) >>= fun b -> ret [obool b]
+  | "ml_sign", [sk; msg; ctx; hedged; tape] ->
+    ml_sign (params_of copy) (getb sk) (getb msg) (octx ctx) (zbool (geti hedged)) (getb tape)
+    >>= fun (o, rest) -> (match o with Some s -> ret [oi (zi 1); ob s; oi (zlen rest)] | None -> ret [oi Z0; ob []; oi (zlen rest)])
+  | "ml_prehash_sign", [sk; msg; ctx; hedged; ph; tape] ->
+    ml_prehash_sign (params_of copy) (getb sk) (getb msg) (octx ctx) (zbool (geti hedged)) (zbool (geti ph)) (getb tape)
+    >>= fun (o, rest) -> (match o with Some s -> ret [oi (zi 1); ob s; oi (zlen rest)] | None -> ret [oi Z0; ob []; oi (zlen rest)])
+  | "ml_verify", [pk; msg; sg; ctx] ->
+    ml_verify (params_of copy) (getb pk) (getb msg) (getb sg) (octx ctx) >>= fun b -> ret [obool b]
+  | "ml_prehash_verify", [pk; msg; sg; ctx; ph] ->
+    ml_prehash_verify (params_of copy) (getb pk) (getb msg) (getb sg) (octx ctx) (zbool (geti ph)) >>= fun b -> ret [obool b]
+  | "frame_pure", [ctx; msg] -> ret [ob (frame_pure (octx ctx) (getb msg))]
+  | "frame_hash", [ph; ctx; msg] -> ret [ob (frame_hash (zbool (geti ph)) (octx ctx) (getb msg))]
+  | "sha256", [m] -> ret [ob (sha256 (getb m))]
+  | "sha512", [m] -> ret [ob (sha512 (getb m))]
+  (* fips202.rs *)
+  | "shake256", [outlen; inp] ->
+    let n = geti outlen in shake256 (zeros (int_of_z n)) n (getb inp) (zlen (getb inp)) >>= fun o -> ret [ob o]
+  | "shake256_hist", ops -> shake_hist false kinit ops [] >>= fun outs -> ret outs
+  | "shake128_hist", ops -> shake_hist true kinit ops [] >>= fun outs -> ret outs
+  | "keccakf", [st] -> keccakf (getl st) >>= fun o -> ret [ol o]
   | _ -> raise Unknown
